@@ -179,6 +179,7 @@ def nested_stream(rep, ci, rng, count):
 def run(tier, seed):
     import core_impl as ci
     rep = Report("C05", tier, seed)
+    ci.CHECK_PURITY = True      # every operation must leave its arguments as they were
     proof_ok = common.proof_stage(rep, "C05")
     rng = random.Random(seed + 5)
     for cname in ("monoidal", "rigid"):
